@@ -194,6 +194,7 @@ def run_gmres(ctx, case, M, b, x0, m, counter):
     A = counting_operator(M, counter)
     if case.get("opview"):
         A = cola.ops.LinearOperator(M.dtype, M.shape, matmat=lambda X: X[::-1])
+    m = P.count_form(m, case["seed"] // 3)
     if case["via"] == "gmres":
         from cola.linalg.inverse.gmres import gmres
         if case["seed"] % 3 == 0:  # the documented positional form gmres(A, rhs, x0, max_iters, tol)
